@@ -5,7 +5,7 @@ from bounded import harness
 import gfapy
 
 KIND = {
-    "Hn": "H\txx:i:1", "H1": "H\tVN:Z:1.0", "H2": "H\tVN:Z:2.0", "H3": "H\tVN:Z:3.0",
+    "Hn": "H\txx:i:1", "H1": "H\tVN:Z:1.0", "H2": "H\tVN:Z:2.0", "H3": "H\tVN:Z:3.0", "H11": "H\tVN:Z:1.1", "H21": "H\tVN:Z:2.10",
     "S1": "S\tA\t*", "S2": "S\tB\t8\t*", "S1b": "S\tC\tACGT\tLN:i:4", "S2b": "S\tD\t4\tACGT",
     "L": "L\tA\t+\tA\t-\t*", "C": "C\tA\t+\tC\t+\t0\t*", "P": "P\tp\tA+\t*",
     "E": "E\t*\tB+\tB-\t0\t2\t0\t2\t*", "G": "G\t*\tB+\tD-\t1\t*", "F": "F\tB\tx+\t0\t2\t0\t2\t*", "O": "O\to\tB+", "U": "U\tu\tB",
@@ -20,7 +20,7 @@ V2 = {"H2", "S2", "S2b", "S2t", "E", "G", "F", "O", "U"}
 def oracle(kinds, explicit):
     ev1 = bool(set(kinds) & V1) or explicit == "gfa1"
     ev2 = bool(set(kinds) & V2) or explicit == "gfa2"
-    if "H3" in kinds or (ev1 and ev2):
+    if "H3" in kinds or "H11" in kinds or "H21" in kinds or (ev1 and ev2):          # only VN 1.0 and 2.0 name a version gfapy knows
         return "VersionError"
     if ev1:
         return "gfa1"
@@ -68,7 +68,7 @@ def check(case):
     outcomes = {}
     for perm in itertools.permutations(kinds):
         lines = [KIND[k] for k in perm]
-        for entry in ("add", "init", "file", "objects") + (("add0",) if "H3" not in kinds else ()):
+        for entry in ("add", "init", "file", "objects", "add0"):
             try:
                 g = build(lines, explicit, entry)
                 out = g.version
@@ -112,7 +112,7 @@ if __name__ == "__main__":
     tier, seed = harness.args()
     cs = cases(tier, seed)
     res = harness.run(cs, check,
-                      rule="every set of <=%d of the %d line kinds (headers without/with VN 1.0/2.0/3.0, GFA1/GFA2 segment syntax without tags and with tags of every datatype, L C P, E G F O U, comment) x explicit version None/gfa1/gfa2, "
+                      rule="every set of <=%d of the %d line kinds (headers without/with VN 1.0/2.0/3.0/1.1/2.10, GFA1/GFA2 segment syntax without tags and with tags of every datatype, L C P, E G F O U, comment) x explicit version None/gfa1/gfa2, "
                            "in ALL orders of its lines (added one by one, then process_line_queue); oracle: version = function of the set of kinds, VersionError iff GFA1 and GFA2 evidence are mixed or the VN is unknown; "
                            "every order and every entry point (add_line of strings one by one, of gfapy.Line instances one by one, Gfa(list), Gfa.from_file) must give the same outcome; every line is in the Gfa exactly once. one evaluation = one set with all its orders" % (3 if tier == "quick" else 4, len(KIND)),
                       bound="sets of <=%d kinds, all permutations" % (3 if tier == "quick" else 4), exhaustive=True)
